@@ -16,6 +16,7 @@ core = simproc.core
 ID = "C10"
 LEVEL = "exploration"
 BATCH = 40
+PROBES_EXPECTED = ['probe:min-config-nonempty', 'probe:labels-emitted', 'probe:choice-user-pick']
 TIERS = {"quick": {"runs": 7000, "wall": 50}, "thorough": {"runs": 300000, "wall": 840}}
 RULE = ("each run draws a program, knobs (parser, policy, set-order salt) and a history of 1-25 operations reaching some configuration "
         "(choices picked away from their default, selected/implied bools, force-set options, hidden user values); the node then writes the "
